@@ -84,7 +84,7 @@ def drive_session(ctx, tier, n_cases=None):
                 elif op == 'embed':
                     r = S.embed(a, b, use_varargs=rnd.random() < 0.85, use_varkwargs=rnd.random() < 0.85)
                 elif op == 'forwards':
-                    r = S.forwards(a, b, rnd.randint(0, 1))
+                    r = S.forwards(a, b, rnd.randint(0, 1), partial=rnd.random() < 0.3)
                 elif op == 'sort':
                     S.apply_params(a, *S.sort_params(a))
                     r = None
